@@ -403,6 +403,11 @@ pub fn extra_universe() -> Universe {
     let mut seen = std::collections::BTreeSet::new();
     s.retain(|t| seen.insert(t.clone()));
     u.subjects = s;
+    // pairs of different types with the same `type_name` (anonymous const blocks): anything keyed by the name of
+    // a type instead of its structure (a cache, a registry) confuses them
+    let choices: Vec<u32> = (0..400u32).map(|i| i.wrapping_mul(2654435761).rotate_left(7) ^ 0x9e37_79b9).collect();
+    crate::mutate::add_twins(&mut u, &mut gen::Src::new(&choices), 4);
+    u.pairs.clear();
     u
 }
 
